@@ -377,6 +377,7 @@ pub struct Exec {
     pub image: Option<String>,
     /// (ln_bump, bbn_bump, keys) observed at every quiescent point
     pub bumps: Vec<(u32, u32, usize)>,
+    prev_shape: Option<(usize, usize, usize)>,
     overlays: BTreeMap<usize, (Option<Overlay>, MOverlay)>,
     /// id of the overlay whose commit was the last commit (None otherwise)
     last_commit_overlay: Option<usize>,
@@ -437,6 +438,15 @@ impl Exec {
                     return Err(viol("occupancy", format!("{when}: store is empty but occupied = {occ}")));
                 }
             }
+            if let Some((pl, pb, pf)) = self.prev_shape {
+                let g = &mut self.out.goals;
+                if rep.leaves > pl { g.push("img:leaf-count-grew(split)"); }
+                if rep.leaves < pl { g.push("img:leaf-count-shrank(merge)"); }
+                if rep.bbns > pb { g.push("img:branch-count-grew(split)"); }
+                if rep.bbns < pb { g.push("img:branch-count-shrank(merge)"); }
+                if rep.ln_free < pf && pf > 0 { g.push("img:free-pages-reused"); }
+            }
+            self.prev_shape = Some((rep.leaves, rep.bbns, rep.ln_free));
             self.bumps.push((rep.ln_bump, rep.bbn_bump, rep.keys));
             let g = &mut self.out.goals;
             if rep.overflow_values > 0 { g.push("img:overflow-value"); }
@@ -1116,6 +1126,25 @@ pub fn check_witness(
     if new_root != ref_new_root {
         return Err(format!("new root {} != reference {}", hex(&new_root[..6]), hex(&ref_new_root[..6])));
     }
+    // C07 "… and as the store itself": aggregate the witnessed paths into a multi-proof; it must
+    // verify against the previous root and its update verification must give the store's root.
+    if !w.path_proofs.is_empty() {
+        let mut pp: Vec<&nomt::WitnessedPath> = w.path_proofs.iter().collect();
+        pp.sort_by(|a, b| a.path.path().cmp(b.path.path()));
+        let distinct = pp.windows(2).all(|x| x[0].path.path() != x[1].path.path());
+        if distinct {
+            let mp = nomt::proof::MultiProof::from_path_proofs(pp.iter().map(|p| p.inner.clone()).collect());
+            let vm = nomt::proof::verify_multi_proof::<B3>(&mp, prev_root)
+                .map_err(|e| format!("multi-proof aggregated from the witnessed paths does not verify: {e:?}"))?;
+            let mut ops: Vec<(Key, Option<[u8; 32]>)> = got.iter().map(|(k, v, _)| (*k, *v)).collect();
+            ops.sort();
+            let r = nomt::proof::verify_multi_proof_update::<B3>(&vm, ops)
+                .map_err(|e| format!("verify_multi_proof_update over the witnessed writes failed: {e:?}"))?;
+            if r != new_root {
+                return Err(format!("multi-proof update gives {} but the store reports {}", hex(&r[..6]), hex(&new_root[..6])));
+            }
+        }
+    }
     Ok(())
 }
 
@@ -1162,6 +1191,7 @@ impl HistX {
             flags,
             image: case["image"].as_str().map(|s| s.to_string()),
             bumps: vec![],
+            prev_shape: None,
             overlays: BTreeMap::new(),
             last_commit_overlay: None,
             prepared: BTreeMap::new(),
